@@ -62,6 +62,15 @@ def configs(tier):
         for first in range(len(c06.OPS)):
             c.append({"genome": b, "first": first, "nops": 2, "maxsz": 2, "starts": 2,
                       "refonly": True})
+            if first == 0 or (tier == "thorough" and first < 3):
+                # reads crossing the first / last genome position RefSeq maps to, showing
+                # non-reference bases there
+                for anchor in ("lo", "hi"):
+                    c.append({"genome": b, "first": first, "nops": 2, "maxsz": 2,
+                              "starts": 3, "anchor": anchor})
+            if tier == "thorough":
+                # reads that show non-reference bases, more start positions
+                c.append({"genome": b, "first": first, "nops": 2, "maxsz": 2, "starts": 4})
     return c
 
 
@@ -255,7 +264,8 @@ def run_config(cfg):
     base += [V2["op"][0] == 0, V2["op"][1] == 0, V2["sz"][0] == 2, V2["sz"][1] == 1,
              V2["start"] == V1["start"]] + [b == 0 for b in V2["b"]]
     tmp = tempfile.mkdtemp(prefix="c17_")
-    tag = f"GA/{cfg['genome']}/first={c06.NAMES[c06.OPS[cfg['first']]]}"
+    tag = f"GA/{cfg['genome']}/first={c06.NAMES[c06.OPS[cfg['first']]]}" + (
+        f"/edge-{cfg['anchor']}" if cfg.get("anchor") else "")
 
     def run():
         sample = c06.new_sample(gene)
